@@ -45,7 +45,21 @@ class FakeZk:
     def make_default_acl(self, acl):
         return acl
 
+    def _pre(self, what, path):
+        hook = getattr(self.store, 'pre_op', None)
+        if hook is not None:
+            hook(self, what, path)
+        if what in ('set', 'delete') and path in self.store.nodes:
+            owner = self.store.nodes[path][1]
+            if owner not in (0, self.client_id[0]):
+                self.store.__dict__.setdefault('foreign_writes', []).append(
+                    'session %s did %s on %s while it was owned by session %s' % (self.client_id[0], what, path, owner))
+
+    def set_acls(self, path, acls, version=-1):
+        return None
+
     def create(self, path, value=b'', acl=None, ephemeral=False, sequence=False, makepath=False):
+        self._pre('create', path)
         if path in self.store.nodes:
             raise kazoo.exceptions.NodeExistsError()
         self.store.nodes[path] = [value, self.client_id[0] if ephemeral else 0]
@@ -53,18 +67,21 @@ class FakeZk:
         return path
 
     def get(self, path, watch=None):
+        self._pre('get', path)
         if path not in self.store.nodes:
             raise kazoo.exceptions.NoNodeError()
         value, owner = self.store.nodes[path]
         return value, Meta(owner)
 
     def set(self, path, value, version=-1):
+        self._pre('set', path)
         if path not in self.store.nodes:
             raise kazoo.exceptions.NoNodeError()
         self.store.nodes[path][0] = value
         self.store.log.append((self.client_id[0], 'set', path))
 
     def delete(self, path, version=-1, recursive=False):
+        self._pre('delete', path)
         if path not in self.store.nodes:
             raise kazoo.exceptions.NoNodeError()
         del self.store.nodes[path]
@@ -168,6 +185,52 @@ def run(seq):
     return errs
 
 
+def interleavings():
+    """Bounded, exhaustive over a small space: ONE create request of session A while session B, which holds the
+    instance's running node, acts between A's ZooKeeper operations (B removes its node - clean-up or session expiry - and
+    registers the next container).  B's two steps are inserted before the i-th and the j-th operation of A, for all
+    i <= j.  Oracle: A never sets or deletes a node that is, at that moment, owned by another session."""
+    cont = 'proid.app-0000000001-aaaaaaaaaaaaa'
+    app = ps.appcfg.app_name(cont)
+    path = ps.z.path.running(app)
+    found = []
+    for expire in (False, True):
+        for i in range(0, 7):
+            for j in range(i, 7):
+                store = Store()
+                sess = {'A': 101, 'B': 202}
+                svc = make_service(store, sess['A'], 'hostA')
+                store.nodes[path] = [b'hostB', sess['B']]
+                state = {'n': 0, 'busy': False}
+
+                def hook(client, what, p, state=state, store=store, i=i, j=j, expire=expire):
+                    if client.client_id[0] != 101 or state['busy']:
+                        return
+                    state['busy'] = True
+                    k = state['n']
+                    state['n'] += 1
+                    if k == i:
+                        store.nodes.pop(path, None)                       # B's node goes away
+                    if k == j:
+                        owner = 203 if expire else 202
+                        if path not in store.nodes:
+                            store.nodes[path] = [b'hostB-next', owner]   # B registers the next container
+                    state['busy'] = False
+                store.pre_op = hook
+                try:
+                    svc.on_create_request(cont, {'endpoints': []})
+                except Exception as ex:    # noqa
+                    found.append('interleaving i=%d j=%d expire=%s: raised %r' % (i, j, expire, ex))
+                    continue
+                for w in getattr(store, 'foreign_writes', []):
+                    found.append('interleaving i=%d j=%d expire=%s: %s' % (i, j, expire, w))
+                if path in store.nodes and store.nodes[path][1] not in (0, 101) and store.nodes[path][0] != b'hostB-next' \
+                        and store.nodes[path][0] != b'hostB':
+                    found.append('interleaving i=%d j=%d expire=%s: node of session %s now holds %r'
+                                 % (i, j, expire, store.nodes[path][1], store.nodes[path][0]))
+    return found
+
+
 def rand_seq(rng):
     seq = []
     conts = ['proid.app-0000000001-aaaaaaaaaaaaa', 'proid.app-0000000001-bbbbbbbbbbbbb',
@@ -194,14 +257,20 @@ def rand_seq(rng):
 def main(argv):
     if argv[0] == '--input':
         case = json.loads(argv[1])
-        errs = run([tuple(op) for op in case['sequence']])
+        errs = interleavings() if case.get('interleaving') else run([tuple(op) for op in case['sequence']])
         print('sequence:', json.dumps(case['sequence']))
         print('result:', errs or 'agrees with the property')
         return 1 if errs else 0
     rng = random.Random(int(os.environ.get('VERIF_SEED', '0')))
+    errs = interleavings()
+    if errs:
+        print('FAILING-INPUT ' + json.dumps({'sequence': [], 'interleaving': True, 'why': errs[:3]}))
+        return 0
     t0 = time.time()
     n = 0
-    while time.time() - t0 < float(os.environ.get('VERIF_REPLAY_BUDGET', '30')):
+    n_max = int(argv[1]) if argv[0] == '--bounded' else 10 ** 9
+    budget = 1e9 if argv[0] == '--bounded' else float(os.environ.get('VERIF_REPLAY_BUDGET', '30'))
+    while n < n_max and time.time() - t0 < budget:
         n += 1
         seq = rand_seq(rng)
         errs = run(seq)
